@@ -482,6 +482,18 @@ def act_models(draw, family='tree', max_bodies=4, max_act=5):
                       joint_kwargs=dict(limits=False, frictionloss=False)))
   info = gm.info
   xml = gm.xml
+  # modelgen can put a hinge and a ball joint on one body (4 rotational dofs on one anchor: singular inertia matrix,
+  # engine errors unrelated to actuation): turn such hinges into slides
+  byb = {}
+  for jn, jt, bn in info['joints']:
+    byb.setdefault(bn, []).append((jn, jt))
+  fixed = []
+  for jn, jt, bn in info['joints']:
+    if jt == 'hinge' and any(t == 'ball' for _, t in byb[bn]):
+      xml = xml.replace('<joint name="%s" type="hinge"' % jn, '<joint name="%s" type="slide"' % jn)
+      jt = 'slide'
+    fixed.append((jn, jt, bn))
+  info = dict(info, joints=fixed)
   tkinds = _tendon_kinds(xml, info['tendons'])
   labels = set(info.get('labels', []))
   # make sure there are sites to attach to: add one site per body lacking one (cheap, deterministic)
